@@ -32,9 +32,110 @@ HASHSEEDS = {"quick": ["0", "1", "4242"], "thorough": ["0", "1", "2", "7", "4242
 def plan(tier, seed):
     cs = sorted(data.countries())
     sh = [{"kind": "draw", "countries": c, "tier": tier, "_name": f"draw-{i}"} for i, c in enumerate(gen.chunk(cs, 14 if tier == "quick" else 42))]
+    counts: dict = {}
+    for e in data.banks():
+        if e.get("country_code") in set(cs):
+            counts[e["country_code"]] = counts.get(e["country_code"], 0) + 1
+    flat = [(cc, k) for cc in sorted(counts) for k in range(counts[cc])]
+    nb = 12 if tier == "quick" else 16
+    per = (len(flat) + nb - 1) // nb
+    for i in range(nb):
+        part = flat[i * per : (i + 1) * per]
+        ranges = []
+        for cc, k in part:
+            if ranges and ranges[-1][0] == cc and ranges[-1][2] == k:
+                ranges[-1][2] = k + 1
+            else:
+                ranges.append([cc, k, k + 1])
+        sh.append({"kind": "banks", "ranges": ranges, "tier": tier, "_name": f"banks-{i}"})
+    sh.append({"kind": "threads", "tier": tier, "_name": "threads"})
     for hs in HASHSEEDS[tier]:
         sh.append({"kind": "digest", "tier": tier, "_env": {"PYTHONHASHSEED": hs}, "hashseed": hs, "_name": f"digest-{hs}"})
     return sh
+
+
+class PickRandom(Random):
+    """A generator whose first choice among registry bank entries is entry number k: lets the registry-based
+    draw visit every listed bank instead of waiting for a seed to land on it."""
+
+    def __init__(self, seed, k):
+        super().__init__(seed)
+        self.k = k
+        self.used = False
+
+    def choice(self, seq):
+        if not self.used and len(seq) and isinstance(seq[0], dict):
+            self.used = True
+            return seq[self.k % len(seq)]
+        return super().choice(seq)
+
+
+def run_banks(shard, mon, S, table):
+    by_country: dict = {}
+    for e in data.banks():
+        by_country.setdefault(e.get("country_code"), []).append(e)
+    for cc, lo, hi in shard["ranges"]:
+        spec = table.get(cc)
+        if not spec:
+            continue
+        for k in range(lo, min(hi, len(by_country.get(cc, [])))):
+            o = observe(S.IBAN.random, cc, random=PickRandom(f"pick/{cc}/{k}", k))
+            mon.ev()
+            mon.distinct(("bankdraw", cc, k))
+            w = {"country": cc, "bank_entry_index": k, "bank_code": by_country[cc][k].get("bank_code")}
+            if not o.ok:
+                if o.exc_name != "GenerateRandomOverflowError":
+                    mon.viol(f"registry_draw_raised:{o.exc_name}", w, "valid IBAN or GenerateRandomOverflowError", o.brief())
+                else:
+                    mon.tally("bank_draw_overflow")
+                continue
+            if R.expect_iban(str(o.value), table).verdict != R.ACCEPT or str(o.value)[:2] != cc:
+                mon.viol("registry_draw_returned_invalid_iban", {**w, "iban": str(o.value)}, "valid IBAN of the country", str(o.value))
+            ob = observe(S.BBAN.random, cc, random=PickRandom(f"pick/{cc}/{k}", k))
+            if ob.ok and not R.matches_spec(spec["bban_spec"], str(ob.value)):
+                mon.viol("registry_draw_bban_not_structure_conforming", {**w, "bban": str(ob.value)}, spec["bban_spec"], str(ob.value))
+            mon.tally("bank_entries_drawn")
+
+
+def run_threads(shard, mon, S, table):
+    """Equally seeded generators must give the sequential result also when several threads draw at once."""
+    import sys  # noqa: PLC0415
+    import threading  # noqa: PLC0415
+
+    cs = sorted(table)
+    rng = env.rng("C13", "threads")
+    jobs = [(rng.choice(cs + ["", "DE", "PL", "NO"]), f"t/{i}", bool(i % 2)) for i in range(160 if shard["tier"] == "quick" else 4000)]
+    want = {}
+    for cc, sd, ur in jobs:
+        o = observe(S.IBAN.random, cc, random=Random(sd), use_registry=ur)
+        want[(cc, sd, ur)] = str(o.value) if o.ok else "EXC:" + o.exc_name
+    bad = []
+    old = sys.getswitchinterval()
+    sys.setswitchinterval(1e-6)
+    n_threads = 8
+
+    def body(t):
+        r = Random(t)
+        mine = list(jobs)
+        r.shuffle(mine)
+        for cc, sd, ur in mine:
+            o = observe(S.IBAN.random, cc, random=Random(sd), use_registry=ur)
+            got = str(o.value) if o.ok else "EXC:" + o.exc_name
+            if got != want[(cc, sd, ur)]:
+                bad.append((cc, sd, ur, got))
+
+    ts = [threading.Thread(target=body, args=(t,), daemon=True) for t in range(n_threads)]
+    for t in ts:
+        t.start()
+    for t in ts:
+        t.join(900)
+    sys.setswitchinterval(old)
+    mon.ev(len(jobs) * n_threads)
+    for j in jobs:
+        mon.distinct(("thr", j))
+    mon.tally("threaded_draws", len(jobs) * n_threads)
+    for cc, sd, ur, got in bad[:3]:
+        mon.viol("same_seed_different_result_under_threads", {"country": cc, "seed": sd, "use_registry": ur, "threads": n_threads}, want[(cc, sd, ur)], got)
 
 
 def pin_value(rng, cls, s, e):
@@ -167,7 +268,7 @@ def run_shard(shard, out_base):
     mon = Mon("C13")
     S = judge.lib()
     table = data.countries()
-    (run_draw if shard["kind"] == "draw" else run_digest)(shard, mon, S, table)
+    {"draw": run_draw, "digest": run_digest, "banks": run_banks, "threads": run_threads}[shard["kind"]](shard, mon, S, table)
     return mon.result(out_base)
 
 
